@@ -81,7 +81,8 @@ pub fn write_evidence(e: &Evidence) {
         "wall_s": (e.wall_s * 1000.0).round() / 1000.0,
         "violations": e.violations,
     });
-    write_json(&verif_dir().join("evidence").join(format!("{}.json", e.property)), &v);
+    let dir = std::env::var("VERIF_EVIDENCE_DIR").map(PathBuf::from).unwrap_or_else(|_| verif_dir().join("evidence"));
+    write_json(&dir.join(format!("{}.json", e.property)), &v);
 }
 
 /// Writes the replay file and returns its path.
